@@ -215,7 +215,13 @@ def r2(ctx):
     outer = _field_loop(f)
     head = [n for n in g.nodes_of(outer) if n.kind == "join"][0]
     cnt = [t for t in _count_tests(f) if any(a is outer for a in f.module.ancestors(t.ast))] or _count_tests(f)     # the one that guards the field loop
-    ctx.need(cnt, "C12.R2: no field-count test")
+    if not cnt:
+        # the count is not kept in a form this (structural) clause recognises -- `len(list)` or a counter compared with the
+        # limit --: whether every field is counted is then decided by the evaluated field-limit table alone (mixed kept /
+        # dropped / folded blocks against the limit)
+        from .c01 import headers_table
+        headers_table(ctx, "C12.R2", "limits")
+        return
     c = compare(cnt[0].ast)
     q = c[0] if _is_count_expr(f, c[0]) else c[2]
     if isinstance(q, ast.Call):
@@ -306,9 +312,78 @@ def cap_only_without_delimiter(ctx, rid):
     ctx.floor(rid, "cap rejections in accumulate-until-delimiter loops", n, 1)
 
 
+def cap_is_stream_property(ctx, rid):
+    """The cap on the header block is a limit on the *stream* -- on the offset T of the block's terminator --, not on
+    whatever the last read returned.  A buffer of n bytes without the 4-byte terminator proves T >= n - 3 only (it may end 1-3
+    bytes into it), so it may be refused only when n - 3 > cap; a block whose terminator is found at T > cap must be refused
+    even when the read that crossed the cap brought the terminator along.  Otherwise blocks within a few bytes of the cap
+    (or up to a read size above it) are accepted or refused depending on where the reads end.  Evaluated on Request.parse from
+    the statement after a read: (not found, n = cap + 1..3) -> no Limit* rejection before the next read; (found at cap + 1)
+    -> a Limit* rejection before the headers are parsed; (found at cap) -> none."""
+    repo = ctx.repo
+    from ..absint import Explorer
+    f = ctx.fn(repo.func(MSG + ".Request.parse"))
+    g = f.cfg
+    DELIM = b"\r\n\r\n"
+
+    def atom_of(e):
+        if isinstance(e, ast.Call) and isinstance(e.func, ast.Attribute) and e.func.attr in ("find", "index") and e.args and const(e.args[0], NO) == DELIM:
+            return "IDX"
+        if isinstance(e, ast.Compare) and len(e.ops) == 1 and const(e.left, NO) == DELIM and isinstance(e.ops[0], (ast.In, ast.NotIn)):
+            return "FOUND" if isinstance(e.ops[0], ast.In) else "NOTFOUND"
+        if isinstance(e, ast.Compare) and len(e.ops) == 1 and isinstance(const(e.comparators[0], NO), bytes) and const(e.comparators[0], NO) == b"\r\n" and isinstance(e.left, ast.Subscript):
+            return "EMPTYBLOCK"
+        if isinstance(e, ast.Call) and isinstance(e.func, ast.Name) and e.func.id == "len" and len(e.args) == 1:
+            return "LEN"
+        if isinstance(e, ast.Call) and isinstance(e.func, ast.Attribute) and e.func.attr == "tell" and not e.args:
+            return "LEN"
+        if isinstance(e, ast.Attribute) and e.attr.startswith("max_"):
+            return "LIMIT"
+        return None
+    loops = []
+    for w in [x for x in walk_own(f.node) if isinstance(x, ast.While)]:
+        if any(isinstance(c, ast.Call) and isinstance(c.func, ast.Attribute) and c.func.attr == "find" and c.args and const(c.args[0], NO) == DELIM for c in ast.walk(w)):
+            reads = [nd for st in w.body for c in ast.walk(st) if is_read_call(repo, f, c) for nd in nodes_with(f, c)]
+            if reads:
+                loops.append((w, reads))
+    ctx.need(loops, rid + ": the header-block loop of Request.parse was not found")
+    w, reads = loops[0]
+    caps = []
+    for nd in g.nodes:
+        if nd.kind == "stmt" and isinstance(nd.ast, ast.Raise) and nd.ast.exc is not None:
+            e_ = nd.ast.exc.func if isinstance(nd.ast.exc, ast.Call) else nd.ast.exc
+            if (repo.resolve(f.module, f, e_) or norm(e_)).rsplit(".", 1)[-1].startswith("LimitRequestHeaders"):
+                caps.append(nd)
+    ph = [n for c in ast.walk(f.node) if isinstance(c, ast.Call) and isinstance(c.func, ast.Attribute) and c.func.attr == "parse_headers" for n in nodes_with(f, c)]
+    ctx.need(caps and ph, rid + ": Request.parse lacks the header cap or the parse_headers call")
+    CAP = 100
+    rows = [("n=cap+%d" % k, "a buffer of cap + %d bytes that does not contain the terminator yet" % k, {"IDX": -1, "FOUND": False, "NOTFOUND": True, "LEN": CAP + k}, False) for k in (1, 2, 3)]
+    rows += [("T=cap+1", "a header block whose terminator is found at offset cap + 1 (the read that crossed the cap also brought the terminator)", {"IDX": CAP + 1, "FOUND": True, "NOTFOUND": False, "LEN": CAP + 4000}, True),
+             ("T=cap", "a header block whose terminator is found at offset cap", {"IDX": CAP, "FOUND": True, "NOTFOUND": False, "LEN": CAP + 4000}, False)]
+    for tag, label, vals, want_cap in rows:
+        for r in reads:
+            for b, l in r.out:
+                if l == "exc":
+                    continue
+                env = dict(vals)
+                env.update({"LIMIT": CAP, "EMPTYBLOCK": False})
+                outs = Explorer(f, atom_of=atom_of).run(b, env, watch={c.id: "cap" for c in caps}, stop=lambda x: x in reads or x in ph)
+                fired = [o for o in outs if "cap" in o.events]
+                quiet = [o for o in outs if "cap" not in o.events and o.kind != "raise"]      # (other raises: the read returned nothing)
+                if want_cap:
+                    okc = bool(fired) and not quiet
+                    why = "%s is not refused for size before its fields are parsed: the cap lets through up to a read size more than it says, for some segmentations only" % label
+                else:
+                    okc = not fired
+                    why = "%s is refused by the cap although the block may be (is) within it: whether a block within a few bytes of the cap is accepted depends on where a read ends" % label
+                ctx.check(rid, okc, key(f, "cap-is-a-stream-property|" + tag), site(f, (fired[0].path[-2] if fired and not want_cap else r)), why + " (cap %d)" % CAP,
+                          "refused exactly when the terminator lies beyond the cap", path=(fired and not want_cap) and g.fmt_path(list(fired[0].path)) or None)
+
+
 def r3(ctx):
     repo = ctx.repo
     cap_only_without_delimiter(ctx, "C12.R3")
+    cap_is_stream_property(ctx, "C12.R3")
     n = 0
     scope = [MSG + ".Request.parse", MSG + ".Request.read_line", BODY + ".ChunkedReader.parse_trailers", BODY + ".ChunkedReader.parse_chunk_size"]
     for q in scope:
